@@ -1397,10 +1397,15 @@ class DiskRefsContainer(RefsContainer):
                 # may only be packed, or otherwise unstorable
                 found = False
 
+            # Drop the packed entry first: if that fails the loose ref (or
+            # the untouched packed entry) still holds the old value, whereas
+            # removing the loose file first would let an older packed value
+            # reappear.
+            self._remove_packed_ref(name)
+
             if found:
                 os.remove(filename)
 
-            self._remove_packed_ref(name)
             self._log(
                 name,
                 old_ref,
@@ -1949,12 +1954,14 @@ class locked_ref:
         # Delete the actual ref file while holding the lock
         if self._realname:
             filename = self._refs_container.refpath(self._realname)
+            # Packed entry first, so an older packed value can never
+            # reappear between (or instead of) the two removals.
+            self._refs_container._remove_packed_ref(self._realname)
             try:
                 if os.path.lexists(filename):
                     os.remove(filename)
             except FileNotFoundError:
                 pass
-            self._refs_container._remove_packed_ref(self._realname)
 
         self._deleted = True
 
